@@ -118,17 +118,21 @@ StepDelete(names, d, op) ==
     IN  [ok |-> TRUE, res |-> RCount(Cardinality(sel)),
          d |-> [d EXCEPT ![t] = Without(d[t], sel)]]
 
-\* wait with timeout 0: the rows selected by where, projected on columns,
-\* compared as a set with the given rows
+\* wait with timeout 0: the rows selected by where and the given rows are
+\* compared as sets on the given columns (all columns when none are given).
+\* A column an expected row does not provide is not compared - this is the
+\* reading the repository's own tests fix (RFC 7047 would take the default);
+\* the drivers only produce expected rows that provide every listed column,
+\* where both readings coincide.
 WaitHolds(names, d, op) ==
     LET t == op.table
         sel == Select(t, d[t], XWhere(names, t, op.where))
-        cols == IF op.hasColumns THEN SeqToSet(op.columns) \cap Cols(t) ELSE Cols(t)
-        actual == {[c \in cols |-> d[t][u][c]] : u \in sel}
-        want(i) == LET pr == PartialRow(names, t, op.rows[i])
-                   IN  [c \in cols |-> IF c \in DOMAIN pr THEN pr[c] ELSE Default(Col(t, c))]
-        expected == {want(i) : i \in DOMAIN op.rows}
-    IN  IF op.until = "==" THEN actual = expected ELSE actual # expected
+        cols == IF op.hasColumns /\ Len(op.columns) > 0 THEN SeqToSet(op.columns) \cap Cols(t) ELSE Cols(t)
+        exp(i) == PartialRow(names, t, op.rows[i])
+        matches(u, i) == \A c \in cols \cap DOMAIN exp(i) : d[t][u][c] = exp(i)[c]
+        equal == /\ \A u \in sel : \E i \in DOMAIN op.rows : matches(u, i)
+                 /\ \A i \in DOMAIN op.rows : \E u \in sel : matches(u, i)
+    IN  IF op.until = "==" THEN equal ELSE ~equal
 
 StepWait(names, d, op) ==
     IF op.until \notin {"==", "!="} THEN [ok |-> FALSE, res |-> RError, d |-> d]
